@@ -16,8 +16,8 @@ from checks.kern import frac_spec
 _PROJECTS = {}
 
 
-def project(name, T, dt=0.25, pops=1, transfers=0, durs=None):
-    key = (name, T, dt, pops, transfers, durs)
+def project(name, T, dt=0.25, pops=1, transfers=0, durs=None, transfer_units="probability"):
+    key = (name, T, dt, pops, transfers, durs, transfer_units)
     if key not in _PROJECTS:
         import atomica as at
 
@@ -27,8 +27,9 @@ def project(name, T, dt=0.25, pops=1, transfers=0, durs=None):
                 for k, tr in P.parsets[0].transfers.items():
                     for src, par in tr.items():
                         for dst, ts in par.ts.items():
-                            ts.assumption = 0.05
-                            ts.units = "probability"
+                            if transfer_units == "duration":
+                                ts.assumption = 8.0
+                            ts.units = transfer_units
             if durs:
                 # duration of the timed group differs between the populations (connected by the transfer)
                 for pop, d in zip(P.parsets[0].pop_names, durs):
@@ -115,7 +116,13 @@ def step_body(name, T, want, dt=0.25, pops=1, transfers=0, junction_init=False, 
                         continue
                     v = par.vals[ti]
                     if shim.is_sym(v) or not env.symbolic:
-                        par.vals[ti] = env.cut(v, "par|%s|%s|%d|call%d" % (par.name, pop.name, ti, state["npars"]))
+                        guarantees = []
+                        f = gen.FLUSH_SPEC.get(name, {}).get(par.name)
+                        if f is not None and ti == 0 and "pre_flush" not in state:
+                            # function-valued junction proportion before the initial flush: the cut keeps its (proved) value on the initial state
+                            stocks0 = {c.name: mr.comp_val(am, c, 0) for c in pop.comps}
+                            guarantees = [lambda x, _s=f(stocks0): env.eq(x, _s)]
+                        par.vals[ti] = env.cut(v, "par|%s|%s|%d|call%d" % (par.name, pop.name, ti, state["npars"]), guarantees)
             junction_domain(" (cut values)")
 
         def pre_flush(model):
@@ -125,6 +132,7 @@ def step_body(name, T, want, dt=0.25, pops=1, transfers=0, junction_init=False, 
                     if not isinstance(c, am.SourceCompartment):
                         tot = tot + mr.comp_val(am, c, 0)
             state["pre_flush_total"] = tot
+            state["pre_flush"] = {(c.name, pop.name): mr.comp_val(am, c, 0) for pop in model.pops for c in pop.comps}
 
         def post_flush(model):
             tot = 0.0
@@ -136,6 +144,23 @@ def step_body(name, T, want, dt=0.25, pops=1, transfers=0, junction_init=False, 
                         env.claim("C04_junction_empty_after_initial_flush|%s|%s" % (c.name, pop.name), env.eq(c.vals[0], 0.0, 0), key="flush_empty")
             if "C04" in want or "C01" in want:
                 env.claim("C04_initial_flush_preserves_total", env.eq(tot, state["pre_flush_total"]), key="flush_total")
+            if "C04" in want and name in gen.FLUSH_SPEC:
+                # the people initially in a junction are split by the proportions *as the model defines them on the initial state*
+                # (function-valued proportions evaluated at t0, data-valued ones as stored); junctions feeding compartments only
+                for pop in model.pops:
+                    before = {cn: v for (cn, pn), v in state["pre_flush"].items() if pn == pop.name}
+                    for c in pop.comps:
+                        if isinstance(c, am.JunctionCompartment) and all(not isinstance(l.dest, am.JunctionCompartment) for l in c.outlinks) and not isinstance(c, am.ResidualJunctionCompartment):
+                            spec = {}
+                            for l in c.outlinks:
+                                f = gen.FLUSH_SPEC[name].get(l.parameter.name)
+                                spec[l.dest.name] = env.smax(f(before) if f else l.parameter.vals[0], 0.0)
+                            psum = 0.0
+                            for v in spec.values():
+                                psum = psum + v
+                            for dn, pe in spec.items():
+                                gained = mr.comp_val(am, pop.comp_lookup[dn], 0) - before[dn]
+                                env.claim("C04_initial_flush_split_by_model_proportions|%s|%s>%s" % (pop.name, c.name, dn), env.eq(gained * psum, before[c.name] * pe), key="flush_split")
             # Inv after the flush: stocks >= 0 (cut)
             if env.cutting:
                 for pop in model.pops:
@@ -488,12 +513,16 @@ def specs(prop, tier):
         lst = [("M1", 3, {}), ("M2", 3, {}), ("M4", 3, {}), ("M6", 3, {}), ("M7", 4, {}), ("M10", 3, {}), ("M12", 3, {}), ("M1", 3, dict(pops=2, transfers=1)), ("M7", 4, dict(pops=2, transfers=1))]
         if not q:
             lst += [("M5", 3, {}), ("M8", 4, {}), ("M7", 4, dict(dt=0.5)), ("M8", 5, dict(dt=0.125))]
+        if prop == "C03" and q:
+            lst.remove(("M1", 3, dict(pops=2, transfers=1)))  # 6 min of nonlinear queries with the extra transfer outflow on every compartment: thorough tier
         if prop in ("C01", "C02"):
-            lst += [("M5", 3, dict(junction_init=True)), ("M5R", 3, dict(junction_init=True)), ("M8", 4, {})] if q else [("M5R", 3, dict(junction_init=True))]
+            lst += [("M5", 3, dict(junction_init=True)), ("M5R", 3, dict(junction_init=True)), ("M8", 4, {}), ("M8J", 4, {})] if q else [("M5R", 3, dict(junction_init=True)), ("M8J", 4, {}), ("M8R", 4, {})]
     elif prop == "C04":
-        lst = [("M4", 3, dict(junction_init=True)), ("M5", 3, dict(junction_init=True)), ("M5R", 3, dict(junction_init=True)), ("M6", 3, dict(junction_init=True)), ("M8", 4, {}), ("M12", 3, dict(junction_init=True))]
+        lst = [("M4", 3, dict(junction_init=True)), ("M5F", 3, dict(junction_init=True)), ("M5", 3, dict(junction_init=True)), ("M5R", 3, dict(junction_init=True)), ("M6", 3, dict(junction_init=True)), ("M8", 4, {}), ("M8J", 4, {}), ("M12", 3, dict(junction_init=True))]
+        if not q:
+            lst += [("M8R", 4, {})]
     elif prop == "C05":
-        lst = [("M7", 4, {}), ("M8", 4, {}), ("M8R", 4, {}), ("M8B", 4, {}), ("M7", 4, dict(pops=2, transfers=1)), ("M7", 4, dict(pops=2, transfers=1, durs=(0.5, 0.75))), ("M7", 4, dict(pops=2, transfers=1, durs=(0.75, 0.25)))]
+        lst = [("M7", 4, {}), ("M8", 4, {}), ("M8J", 4, {}), ("M8R", 4, {}), ("M8B", 4, {}), ("M7", 4, dict(pops=2, transfers=1)), ("M7", 4, dict(pops=2, transfers=1, durs=(0.5, 0.75))), ("M7", 4, dict(pops=2, transfers=1, durs=(0.75, 0.25)))]
         if not q:
             lst += [("M7", 6, dict(dt=0.125)), ("M8", 5, dict(dt=0.125))]
     else:
@@ -512,7 +541,7 @@ def specs(prop, tier):
     return out
 
 
-WIRING = [("M7", 0.5, 1, 12, 1.0), ("M7", 0.25, 1, 12, 1.0), ("M8", 0.5, 1, 52, 1.0), ("M7", 0.3, 1, 10, 1.0), ("M7", 2.0, 1, 4, 1.0), ("M7", 0.02, 1, 12, 1.0), ("M7", 0.5, 1, 4, 2.0), ("M8", 0.75, 1, 4, 0.5), ("M8R", 0.5, 1, 4, 1.0), ("M8B", 0.5, 1, 4, 1.0)]
+WIRING = [("M7", 0.5, 1, 12, 1.0), ("M7", 0.25, 1, 12, 1.0), ("M8", 0.5, 1, 52, 1.0), ("M7", 0.3, 1, 10, 1.0), ("M7", 2.0, 1, 4, 1.0), ("M7", 0.02, 1, 12, 1.0), ("M7", 0.5, 1, 4, 2.0), ("M8", 0.75, 1, 4, 0.5), ("M8R", 0.5, 1, 4, 1.0), ("M8B", 0.5, 1, 4, 1.0), ("M8J", 0.5, 1, 4, 1.0)]
 
 
 def groups(prop, tier):
